@@ -297,9 +297,9 @@ func AssertEq(label string, a, b any) {
 func AssertEqAt(label string, k int, a, b any) { AssertEq(fmt.Sprintf("%s[%d]", label, k), a, b) }
 
 // KnownFinding is an assertion whose failure is a recorded finding.
-func KnownFinding(id, label string, c bool)           { Assert(label, c) }
-func KnownFindingAt(id, label string, k int, c bool)  { AssertAt(label, k, c) }
-func KnownFindingEq(id, label string, a, b any)       { AssertEq(label, a, b) }
+func KnownFinding(id, label string, c bool)              { Assert(label, c) }
+func KnownFindingAt(id, label string, k int, c bool)     { AssertAt(label, k, c) }
+func KnownFindingEq(id, label string, a, b any)          { AssertEq(label, a, b) }
 func KnownFindingEqAt(id, label string, k int, a, b any) { AssertEqAt(label, k, a, b) }
 
 // KnownOutcome declares that a non-terminating / panicking outcome of the
